@@ -214,6 +214,21 @@ func (e *btEnv) rejectedBuildCheck(what string, err error) {
 		what, btErrKind(err), len(left), hx.IDStr(left[0]), inWS, e.roots, herr))
 }
 
+// guardedVerifySerialization runs one of the library's serialization verifiers under recover: a verifier that
+// panics on a container the library built is a violation with the history ("*"), not a crash of the harness.
+func (e *btEnv) guardedVerifySerialization(name string, f func() error) (err error) {
+	defer func() {
+		if r := recover(); r != nil {
+			e.st.Violations = append(e.st.Violations, hx.Violation{
+				Property: "*", Stream: e.st.Stream, Seed: e.cfg.Seed, Program: e.prog, Step: e.step, Trace: e.w.Path, Line: e.w.Lines,
+				What: fmt.Sprintf("%s PANICKED on a container the library built: %v", name, r),
+			})
+			err = nil
+		}
+	}()
+	return f()
+}
+
 func (e *btEnv) violation(what string) {
 	if len(e.st.Violations) > 40 {
 		return
@@ -625,7 +640,7 @@ func (e *btEnv) checkArray(when string, x *btArr) {
 	if err := atree.VerifyArray(x.a, x.addr, x.ty, btTIC, hx.HashInput, true); err != nil {
 		e.violation(fmt.Sprintf("%s: VerifyArray: %v", when, err))
 	}
-	if err := atree.VerifyArraySerialization(x.a, hx.DecMode(), hx.EncMode(), btDecodeStorable, btDecodeTypeInfo, btCompareStorable); err != nil {
+	if err := e.guardedVerifySerialization("VerifyArraySerialization", func() error { return atree.VerifyArraySerialization(x.a, hx.DecMode(), hx.EncMode(), btDecodeStorable, btDecodeTypeInfo, btCompareStorable) }); err != nil {
 		e.violation(fmt.Sprintf("%s: VerifyArraySerialization: %v", when, err))
 	}
 	if !x.a.Inlined() {
@@ -1230,7 +1245,7 @@ func (e *btEnv) scenarioBytes() {
 	if err := atree.VerifyArray(a, addr, ty, btTIC, hx.HashInput, true); err != nil {
 		e.violation("ByteSliceToByteArray: VerifyArray: " + err.Error())
 	}
-	if err := atree.VerifyArraySerialization(a, hx.DecMode(), hx.EncMode(), btDecodeStorable, btDecodeTypeInfo, btCompareStorable); err != nil {
+	if err := e.guardedVerifySerialization("VerifyArraySerialization", func() error { return atree.VerifyArraySerialization(a, hx.DecMode(), hx.EncMode(), btDecodeStorable, btDecodeTypeInfo, btCompareStorable) }); err != nil {
 		e.violation("ByteSliceToByteArray: VerifyArraySerialization: " + err.Error())
 	}
 	e.health("ByteSliceToByteArray")
@@ -1451,7 +1466,7 @@ func (e *btEnv) checkMap(when string, x *btMap, ordered bool) {
 	if err := atree.VerifyMap(x.m, x.addr, x.ty, btTIC, hx.HashInput, true); err != nil {
 		e.violation(fmt.Sprintf("%s: VerifyMap: %v", when, err))
 	}
-	if err := atree.VerifyMapSerialization(x.m, hx.DecMode(), hx.EncMode(), btDecodeStorable, btDecodeTypeInfo, btCompareStorable); err != nil {
+	if err := e.guardedVerifySerialization("VerifyMapSerialization", func() error { return atree.VerifyMapSerialization(x.m, hx.DecMode(), hx.EncMode(), btDecodeStorable, btDecodeTypeInfo, btCompareStorable) }); err != nil {
 		e.violation(fmt.Sprintf("%s: VerifyMapSerialization: %v", when, err))
 	}
 }
